@@ -48,6 +48,9 @@ pub struct KnownFinding {
     /// ... and its detail contains every one of these substrings
     #[serde(default)]
     pub detail_contains: Vec<String>,
+    /// short text for the KNOWN-FINDING line (defaults to `what`)
+    #[serde(default)]
+    pub line: String,
 }
 
 #[derive(Default)]
@@ -268,7 +271,7 @@ impl Ctx {
         if k.property != self.prop {
             return;
         }
-        let line = format!("KNOWN-FINDING: property={} {} [{}]", k.property, k.what, k.id);
+        let line = format!("KNOWN-FINDING: property={} {} [{}]", k.property, if k.line.is_empty() { &k.what } else { &k.line }, k.id);
         let mut g = self.known_lines.lock().unwrap();
         if !g.contains(&line) {
             println!("{}", line);
